@@ -79,6 +79,9 @@ DomGuard(r) == LET d == DomOfBind(r.map, r.bind) IN
 JudgeConv0(r) ==
   IF ~NonOverlap(r.map) \/ r.m.kind # "match" \/ ~DomGuard(r) THEN "ok"
   ELSE IF \E i \in 1..Len(r.m.vals) : r.m.vals[i].ty = "other" THEN "ok"
+  \* a matched float whose str() is not positional (1e-05 from the path "0.00001") or has more than 15 significant
+  \* digits is outside the float converter's canonical domain: the law promises nothing about rebuilding it
+  ELSE IF \E i \in 1..Len(r.m.vals) : r.m.vals[i].ty = "float" /\ ~FloatCanon(r.m.vals[i].v, TRUE) THEN "ok"
   ELSE IF r.rb_exc # "" THEN "ConverseBuildFailed"
   ELSE LET d == Deliver(r.map, r.bind, r.rebuilt) IN
        IF ~d.under \/ d.host # AdapterHost(r.map, r.bind) THEN "NotUnderScriptRoot"
